@@ -27,6 +27,8 @@ pub mod streams;
 pub mod system_calls;
 pub mod term_stream;
 pub mod unify;
+#[cfg(feature = "verif")]
+pub mod verif_machine;
 
 use crate::arena::*;
 use crate::arithmetic::*;
